@@ -78,7 +78,7 @@ def run_soup(case):
 @st.composite
 def wf_cases(draw, tier):
     kind = draw(st.sampled_from(RT.KINDS))
-    spec = draw(GX.text_specs(kind, max_states=4))
+    spec = draw(GX.wide_text_specs(kind)) if draw(st.integers(0, 9)) == 0 else draw(GX.text_specs(kind, max_states=4))
     return {"kind": kind, "spec": spec, "layout": draw(GX.layouts(kind, spec))}
 
 
@@ -112,6 +112,55 @@ def soup_cases(draw, tier):
         return {"kind": kind, "text": "\n".join(lines)}
     lines = draw(st.lists(st.lists(st.sampled_from(TOKENS), min_size=0, max_size=5).map(" ".join), max_size=8))
     return {"kind": kind, "text": "\n".join(lines)}
+
+
+FAMILY = {"dfa": "fa", "nfa": "fa", "pda": "pda", "tm": "tm"}
+
+
+def run_history(case):
+    """Several descriptions of different kinds are parsed one after the other in one case: every well-formed text must give exactly the described
+    automaton and every faulty text must be rejected, whatever the parsers have seen before.  The faults include transition labels copied
+    from the earlier texts of another format (a TM label in a PDA description, ...)."""
+    seen = []
+    cross = 0
+    for i, stp in enumerate(case["steps"]):
+        kind, spec = stp["kind"], stp["spec"]
+        text = RT.render(kind, spec, stp["layout"])
+        obj = lib(PARSE[kind], text)
+        got, want = RT.canon(kind, SNAP[kind](obj)), RT.canon(kind, spec)
+        if got != want:
+            diff = [k for k in want if got.get(k) != want[k]]
+            raise Fail("history_wrong_automaton_" + kind, "step %d: parse_%s builds a different automaton (fields %s) after parsing %s; text:\n%s" %
+                       (i, kind, diff, [s["kind"] for s in case["steps"][:i]], text))
+        faults = list(RT.corruptions(kind, spec))
+        base = RT.render(kind, spec, {"group": False})
+        q = spec["Q"][0]
+        for k2, toks in seen:
+            if FAMILY[k2] != FAMILY[kind]:
+                for tok in sorted(toks)[:6]:
+                    faults.append(("label_copied_from_%s_text" % k2, base + "\n%s %s %s" % (q, q, tok)))
+                    if kind in ("pda", "tm"):
+                        faults.append(("label_copied_from_%s_text_alphabets_omitted" % k2, RT.undeclared_base(kind, spec) + "\n%s %s %s" % (q, q, tok)))
+                    cross += 1
+        for name, bad in faults:
+            try:
+                res = PARSE[kind](bad)
+            except Exception:
+                continue
+            raise Fail("history_accepted_%s_%s" % (kind, name), "step %d: parse_%s accepts a description with the fault '%s' after parsing %s; text:\n%s" %
+                       (i, kind, name, [s["kind"] for s in case["steps"][:i]], bad))
+        seen.append((kind, {l for _, _, l in RT.labels(kind, spec) if l}))
+    return {"nt": cross > 0, "cls": ["steps_%d" % len(case["steps"])] + sorted({s["kind"] for s in case["steps"]}), "out": {"cross_format_labels": cross}}
+
+
+@st.composite
+def history_cases(draw, tier):
+    steps = []
+    for _ in range(draw(st.integers(2, 4))):
+        kind = draw(st.sampled_from(RT.KINDS))
+        spec = draw(GX.text_specs(kind, max_states=3))
+        steps.append({"kind": kind, "spec": spec, "layout": draw(GX.layouts(kind, spec))})
+    return {"steps": steps}
 
 
 def fuzz_driver(tier, widx, nworkers, vseed, workdir):
@@ -154,6 +203,10 @@ CLAUSES = [
            rule="every single-fault corruption (no/empty/two initial states, each declaration repeated, incomplete transition, illegal state label, undeclared state / "
                 "final state / symbol, non-deterministic and non-total DFA, malformed PDA/TM labels, TM input symbol not on the tape) of a fully declared text must raise; "
                 "the uncorrupted text must parse to the spec; non-trivial: >= 2 states"),
+    Clause("history", history_cases, run_history, quick=500, thorough=4000,
+           rule="2-4 descriptions of different kinds parsed one after the other in one process: each well-formed text gives exactly its automaton and each single-fault "
+                "corruption is rejected whatever was parsed before; the faults include transition labels copied from the earlier texts of another format; "
+                "non-trivial: at least one label of another format was injected"),
     Clause("token_soup", soup_cases, run_soup, quick=1500, thorough=15000,
            rule="perturbed well-formed texts and lines assembled from keywords, names, labels and junk; whenever a parser returns, the object satisfies the class "
                 "invariants of its kind (own predicates); non-trivial: the parser returned an object"),
